@@ -22,6 +22,29 @@ use crate::{
 };
 const MAX_ALLOWED_DEPTH: u8 = u8::MAX;
 
+/// Offset in `json` of the byte that `String::from_utf8_lossy(json)` copied, or of the invalid
+/// sequence it replaced, at offset `off` of its result.
+fn lossy_offset_in_origin(json: &[u8], off: usize) -> usize {
+    let (mut src, mut dst) = (0, 0);
+    for chunk in json.utf8_chunks() {
+        let valid = chunk.valid().len();
+        if off <= dst + valid {
+            return src + (off - dst);
+        }
+        src += valid;
+        dst += valid;
+        if !chunk.invalid().is_empty() {
+            // one U+FFFD (three bytes) stands for the whole invalid sequence
+            if off < dst + 3 {
+                return src;
+            }
+            src += chunk.invalid().len();
+            dst += 3;
+        }
+    }
+    json.len()
+}
+
 //////////////////////////////////////////////////////////////////////////////
 
 /// A structure that deserializes JSON into Rust values.
@@ -378,10 +401,16 @@ impl<'de, R: Reader<'de>> Deserializer<R> {
                 // repr the invalid utf8, not need to care about the invalid UTF8 char in non-string
                 // parts, it will cause errors when parsing.
                 let repaired = String::from_utf8_lossy(json);
-                (
-                    val.parse_with_padding(repaired.as_bytes(), cfg)?,
-                    repaired.len(),
-                )
+                // the copy is longer than the input (U+FFFD per invalid sequence): positions in
+                // it are mapped back before they reach the reader or the caller
+                match val.parse_with_padding(repaired.as_bytes(), cfg) {
+                    Ok(n) if n <= repaired.len() => (lossy_offset_in_origin(json, n), json.len()),
+                    Ok(n) => (json.len() + (n - repaired.len()), json.len()),
+                    Err(e) => {
+                        let index = lossy_offset_in_origin(json, e.offset());
+                        return Err(Error::syntax(e.error_code(), json, index));
+                    }
+                }
             } else {
                 (val.parse_with_padding(json, cfg)?, json.len())
             };
